@@ -1384,8 +1384,13 @@ META["C07"] = {
                   "self, by-value parameter, local, references to those, account) x 10 access paths (direct, optional chaining, force unwrap, optional "
                   "binding, wrapper field, array of references, closure, view closure, dereferenced copy, bound function) x site (view function/method "
                   "body, pre-, post-condition) with the model's effect class and its laws; each row is compiled by the real checker; every accepted row "
-                  "is executed on both engines under observation (snapshots, register writes, events); accepted + observed effect = violation.",
-    "level_note": "Trusted: TLC, the Go renderer, the snapshot function. Nesting depth: quick = one path element, thorough = two.",
+                  "is executed on both engines under observation (snapshots, register writes, events); accepted + observed effect = violation. "
+                  "A second family covers moves INTO a target: the second value transfer `let old <- TARGET <- v` and the resource swap on self "
+                  "field / self array element / self dictionary entry / owned parameter field / local variable / contract field / field of a "
+                  "contract-held resource, in a view method and in a view initializer, plus struct-typed swaps (own field, field through a "
+                  "reference inside its composite, contract field, local, captured variable of the enclosing view function).",
+    "level_note": "Trusted: TLC, the Go renderer, the snapshot function. Nesting depth: quick = one path element, thorough = two. Statements "
+                  "(declarations, swaps) cannot appear in pre-/post-conditions, so those sites only carry expression operations.",
     "technique": "TLA+ effect model (Purity.tla) enumerated by TLC; checker verdict + observed execution on both engines",
     "design_ref": "DESIGN.md section 5 C07, section 7 #8a",
     "engine": "E4 table + execution",
